@@ -375,6 +375,30 @@ theorem respondLoop_spec (maxMsg codecMax : Nat) (hcodec : maxMsg ≤ codecMax) 
           refine ⟨?_, i2, i3⟩
           rw [i1]; simp [sentBatches, hsent]
 
+/-- Whatever the limits, the loop writes block frames only. -/
+theorem respondLoop_blocks_only (maxMsg codecMax : Nat) : ∀ (fuel : Nat) (blocks : List β),
+    ∀ f ∈ (respondLoop π S m cap maxMsg codecMax fuel blocks).1, ∃ batch len, f = Frame.blocks batch len := by
+  intro fuel
+  induction fuel with
+  | zero => intro blocks f hf; simp [respondLoop] at hf
+  | succ k ih =>
+    intro blocks f hf
+    unfold respondLoop at hf
+    split at hf
+    · simp at hf
+    · rename_i batch rest _
+      split at hf
+      · exact ih rest f hf
+      · rename_i len _
+        split at hf
+        · split at hf
+          · simp only [List.mem_cons] at hf
+            rcases hf with rfl | hf
+            · exact ⟨batch, len, rfl⟩
+            · exact ih rest f hf
+          · simp at hf
+        · exact ih rest f hf
+
 theorem blocksOf_map_block (l : List β) : blocksOf (l.map (Entry.block (π := π))) = l := by
   induction l with
   | nil => rfl
